@@ -49,7 +49,7 @@ var verifPhases = []core_v1.PodPhase{core_v1.PodPending, core_v1.PodRunning, cor
 
 // verifMkPod builds a version of pod `name` with symbolic phase, host-network flag, IP, deletion
 // mark and label value.
-func verifMkPod(name string) *core_v1.Pod {
+func verifMkPod(name string, annotations bool) *core_v1.Pod {
 	p := &core_v1.Pod{}
 	p.Namespace = "ns"
 	p.Name = name
@@ -60,12 +60,56 @@ func verifMkPod(name string) *core_v1.Pod {
 	if nondetBool() {
 		p.DeletionTimestamp = &meta_v1.Time{}
 	}
-	ver := "v1"
+	// the value that is symbolic is the one the configured regex looks at
+	ver, aver := "v1", "a1"
 	if nondetBool() {
-		ver = "v2"
+		if annotations {
+			aver = "a2"
+		} else {
+			ver = "v2"
+		}
 	}
-	p.Labels = map[string]string{"app.kubernetes.io/name": ver, "ignored": "x"}
+	p.Labels = map[string]string{"app.kubernetes.io/name": ver, "ignored": "x", "team": ver, "team-x": "y"}
+	p.Annotations = map[string]string{"gostatsd.atlassian.com/env": aver, "other": "z"}
 	return p
+}
+
+// regex configurations: named group that always captures, named group that may capture
+// nothing (then the whole key names the tag), no named group, annotations instead of labels
+type verifRegexCfg struct {
+	label, annotation *regexp.Regexp
+	want              func(p *core_v1.Pod) []string
+}
+
+var verifRegexCfgs = []verifRegexCfg{
+	{label: regexp.MustCompile(`^app\.kubernetes\.io/(?P<tag>name)$`),
+		want: func(p *core_v1.Pod) []string { return []string{"name:" + p.Labels["app.kubernetes.io/name"]} }},
+	{label: regexp.MustCompile(`^team(-(?P<tag>.+))?$`),
+		want: func(p *core_v1.Pod) []string { return []string{"team:" + p.Labels["team"], "x:" + p.Labels["team-x"]} }},
+	{label: regexp.MustCompile(`^app\.kubernetes\.io/name$`),
+		want: func(p *core_v1.Pod) []string {
+			return []string{"app.kubernetes.io/name:" + p.Labels["app.kubernetes.io/name"]}
+		}},
+	{annotation: regexp.MustCompile(`^gostatsd\.atlassian\.com/(?P<tag>.+)$`),
+		want: func(p *core_v1.Pod) []string { return []string{"env:" + p.Annotations["gostatsd.atlassian.com/env"]} }},
+}
+
+func verifSameTags(got gostatsd.Tags, want []string) bool {
+	if len(got) != len(want) {
+		return false
+	}
+	for _, w := range want {
+		n := 0
+		for _, g := range got {
+			if g == w {
+				n++
+			}
+		}
+		if n != 1 {
+			return false
+		}
+	}
+	return true
 }
 
 // spec: the pod (version) currently holding ip: running or pending, not host network, not being deleted
@@ -79,12 +123,16 @@ func verifHolder(store []*core_v1.Pod, ip string) *core_v1.Pod {
 	return nil
 }
 
-func verifC13(steps int, script []int) {
+func verifC13(steps int, script []int) { verifC13Cfg(steps, script, 0) }
+
+func verifC13Cfg(steps int, script []int, cfgN int) {
 	idx := &verifIndexer{}
+	cfg := verifRegexCfgs[cfgN]
 	prov := &Provider{
-		logger:         logrus.StandardLogger(),
-		podsInf:        &verifInformer{idx: idx},
-		labelRegex:     regexp.MustCompile(`^app\.kubernetes\.io/(?P<tag>name)$`),
+		logger:          logrus.StandardLogger(),
+		podsInf:         &verifInformer{idx: idx},
+		labelRegex:      cfg.label,
+		annotationRegex: cfg.annotation,
 		ipSinkSource:   make(chan gostatsd.Source),
 		infoSinkSource: make(chan gostatsd.InstanceInfo),
 		cache:          make(map[gostatsd.Source]*gostatsd.Instance),
@@ -108,7 +156,7 @@ func verifC13(steps int, script []int) {
 		}
 		switch cmd {
 		case 0: // add (or update when the pod already exists)
-			np := verifMkPod(name)
+			np := verifMkPod(name, cfg.annotation != nil)
 			// pods have distinct IPs (the property's quantifier)
 			other := verifHolder(idx.pods, np.Status.PodIP)
 			verifAssume(other == nil || other.Name == name)
@@ -145,7 +193,7 @@ func verifC13(steps int, script []int) {
 				verifAssert(inst != nil, "a lookup finds the pod currently holding the IP")
 				if inst != nil {
 					verifAssert(inst.ID == gostatsd.Source("ns/"+want.Name), "the identity is namespace/name of the pod currently holding the IP")
-					verifAssert(len(inst.Tags) == 1 && inst.Tags[0] == "name:"+want.Labels["app.kubernetes.io/name"],
+					verifAssert(verifSameTags(inst.Tags, cfg.want(want)),
 						"tags come from the CURRENT version of the pod's labels, named by the regex's tag group, only for matching keys")
 				}
 				verifReach("lookup-pod")
@@ -161,6 +209,10 @@ func VerifC13_3() { verifC13(3, nil) }
 // add, lookup, update-or-add, lookup  /  add, lookup, delete, lookup  /  add, add, lookup, lookup
 func VerifC13_AddLookUpdLook() { verifC13(4, []int{0, 2, 0, 2}) }
 func VerifC13_AddLookDelLook() { verifC13(4, []int{0, 2, 1, 2}) }
+
+// the other regex configurations (see verifRegexCfgs), symbolic choice
+func VerifC13_Regexes() { verifC13Cfg(2, []int{0, 2}, nondetIntIn(1, 3)) }
+func VerifC13_RegexesUpd() { verifC13Cfg(4, []int{0, 2, 0, 2}, nondetIntIn(1, 3)) }
 
 func VerifC13_Twin() {
 	verifC13(2, nil)
